@@ -76,8 +76,10 @@ def split_matrix_svd(A, q0, q1, tol):
 
     # allocate memory for U and V matrices, singular values and
     # corresponding intermediate quantum numbers
-    u = np.zeros((A.shape[0], max_interm_dim), dtype=A.dtype)
-    v = np.zeros((max_interm_dim, A.shape[1]), dtype=A.dtype)
+    # factors are floating-point even for integer-typed input
+    dtype = A.dtype if np.issubdtype(A.dtype, np.inexact) else float
+    u = np.zeros((A.shape[0], max_interm_dim), dtype=dtype)
+    v = np.zeros((max_interm_dim, A.shape[1]), dtype=dtype)
     s = np.zeros(max_interm_dim)
     q = np.zeros(max_interm_dim, dtype=q0.dtype)
 
@@ -175,8 +177,10 @@ def qr(A, q0, q1):
     # keep track of intermediate dimension
     D = 0
 
-    Q = np.zeros((A.shape[0], max_interm_dim), dtype=A.dtype)
-    R = np.zeros((max_interm_dim, A.shape[1]), dtype=A.dtype)
+    # factors are floating-point even for integer-typed input
+    dtype = A.dtype if np.issubdtype(A.dtype, np.inexact) else float
+    Q = np.zeros((A.shape[0], max_interm_dim), dtype=dtype)
+    R = np.zeros((max_interm_dim, A.shape[1]), dtype=dtype)
 
     # corresponding intermediate quantum numbers
     qinterm = np.zeros(max_interm_dim, dtype=q0.dtype)
